@@ -159,6 +159,11 @@ func (g *gen) call(instr ssa.Instruction, c *ssa.CallCommon, pos token.Pos) Val 
 			}
 		}
 	}
+	if g.e.inRepo(callee) && g.sweepFrames != "" && len(callee.Blocks) > 0 {
+		if ctr := g.e.ctrs[key]; ctr == nil || !ctr.Trusted {
+			return g.applyContractFn(g.e.sweepFrameContract(callee, g.sweepFrames), key, callee, args, bindings, pos)
+		}
+	}
 	if g.e.inRepo(callee) {
 		if ctr := g.e.ctrs[key]; ctr != nil {
 			return g.applyContractFn(ctr, key, callee, args, bindings, pos)
